@@ -375,7 +375,7 @@ func registerDecimal(p *Program) {
 			case "Mul":
 				neg := B.Neq(a.Neg, b.Neg)
 				var mag *smt.Term
-				if x.Cfg.Bound("round_abstract", 0) == 1 && !a.Mag.IsConst() && !b.Mag.IsConst() {
+				if (x.Cfg.Bound("round_abstract", 0) == 1 || x.Cfg.Bound("mul_abstract", 0) == 1) && !a.Mag.IsConst() && !b.Mag.IsConst() {
 					// handler-level runs: the product of two symbolic magnitudes is an uninterpreted
 					// function with the order facts the handlers rely on (exact products are the
 					// subject of the C07/C19 kernels)
@@ -432,8 +432,41 @@ func registerDecimal(p *Program) {
 				}
 				x.linkMag(a.Mag)
 				x.linkMag(b.Mag)
-				q := B.RDiv(a.Mag, b.Mag)
+				var q *smt.Term
+				if x.Cfg.Bound("mul_abstract", 0) == 1 && !b.Mag.IsConst() {
+					// kernel runs with abstract products: the quotient of two symbolic magnitudes is
+					// an uninterpreted positive real (the oracle's QDiv is the same function), so
+					// the obligations hold for every value the quotient may take
+					q = B.App("realdiv", smt.SReal, a.Mag, b.Mag)
+					if !x.lenAxiom[q.ID] {
+						x.lenAxiom[q.ID] = true
+						x.Assume(B.Gt(q, zero), "abstract quotient of non-zero magnitudes is positive")
+					}
+				} else {
+					q = B.RDiv(a.Mag, b.Mag)
+				}
 				P := int64(ctx.Precision)
+				if x.Cfg.Bound("mul_abstract", 0) == 1 && !b.Mag.IsConst() {
+					// relational summary of apd's division on the abstract quotient: either the
+					// quotient is representable in P digits and is returned exactly with no flag, or
+					// the result is within half a unit of the P-th digit and Rounded|Inexact are set
+					lo := x.expLo()*2 - int64(x.digits()) - 2 - P
+					hi := x.expHi()*2 + int64(x.digits()) + 2
+					if x.Branch(B.App("quo_exact", smt.SBool, a.Mag, b.Mag)) {
+						e := B.Fresh("qexp", smt.SInt)
+						x.setBounds(e, lo, hi, "quotient exponent")
+						x.AssumeLocal(B.Le(e, B.Sub(a.Exp, b.Exp)), "quotient exponent at most the ideal exponent")
+						x.storeDec(dp, B.Int(0), neg, e, q)
+						return x.condResult(ctx, B.False, B.False)
+					}
+					mag2 := B.Fresh("quorounded", smt.SReal)
+					e2 := B.Fresh("quoroundedexp", smt.SInt)
+					x.setBounds(e2, lo, hi, "rounded quotient exponent")
+					eps := B.RatC(new(big.Rat).SetFrac(big.NewInt(5), pow10(int(P))))
+					x.AssumeLocal(B.And(B.Gt(mag2, zero), B.Le(B.Mul(q, B.Sub(B.RealInt(1), eps)), mag2), B.Le(mag2, B.Mul(q, B.Add(B.RealInt(1), eps)))), "rounded quotient within half an ulp (relational)")
+					x.storeDec(dp, B.Int(0), neg, e2, mag2)
+					return x.condResult(ctx, B.True, B.True)
+				}
 				m := B.Fresh("qlead", smt.SInt)
 				lo := x.expLo()*2 - int64(x.digits()) - 2
 				hi := x.expHi()*2 + int64(x.digits()) + 2
@@ -1166,9 +1199,31 @@ func (x *Exec) zzverifDec(name string, c *CallCtx) (Value, bool) {
 	case "QSub":
 		return RealV{B.Sub(real(a[0]), real(a[1]))}, true
 	case "QMul":
-		return RealV{B.Mul(real(a[0]), real(a[1]))}, true
+		p, q := real(a[0]), real(a[1])
+		if x.Cfg.Bound("mul_abstract", 0) == 1 && !p.IsConst() && !q.IsConst() {
+			// the same uninterpreted product the Mul summary uses, on magnitudes, with the sign
+			// computed separately: obligations then hold for every value the product may take
+			zero := B.RealInt(0)
+			pa := B.Ite(B.Lt(p, zero), B.Neg(p), p)
+			qa := B.Ite(B.Lt(q, zero), B.Neg(q), q)
+			m := B.App("realmul", smt.SReal, pa, qa)
+			if !x.lenAxiom[m.ID] {
+				x.lenAxiom[m.ID] = true
+				x.Assume(B.And(B.Ge(m, zero), B.Eq(B.Eq(m, zero), B.Or(B.Eq(pa, zero), B.Eq(qa, zero)))), "abstract product (oracle side)")
+			}
+			return RealV{B.Ite(B.Neq(B.Lt(p, zero), B.Lt(q, zero)), B.Neg(m), m)}, true
+		}
+		return RealV{B.Mul(p, q)}, true
 	case "QDiv":
-		return RealV{B.RDiv(real(a[0]), real(a[1]))}, true
+		p, q := real(a[0]), real(a[1])
+		if x.Cfg.Bound("mul_abstract", 0) == 1 && !q.IsConst() {
+			zero := B.RealInt(0)
+			pa := B.Ite(B.Lt(p, zero), B.Neg(p), p)
+			qa := B.Ite(B.Lt(q, zero), B.Neg(q), q)
+			m := B.App("realdiv", smt.SReal, pa, qa)
+			return RealV{B.Ite(B.Eq(p, zero), zero, B.Ite(B.Neq(B.Lt(p, zero), B.Lt(q, zero)), B.Neg(m), m))}, true
+		}
+		return RealV{B.RDiv(p, q)}, true
 	case "QNeg":
 		return RealV{B.Neg(real(a[0]))}, true
 	case "QAbs":
